@@ -29,7 +29,9 @@ import (
 )
 
 var schema = gqlparser.MustLoadSchema(&ast.Source{Name: "pipe.graphql", Input: `
-type Query { a: Int b: Int c(x: Int!): Int }
+type Query { a: Int b: Int c(x: Int!): Int o: Obj i(in: In): Int }
+type Obj { f: Int }
+input In { k: Int }
 type Mutation { m: Int n: Int }
 type Subscription { s: Int }
 `})
@@ -43,15 +45,40 @@ var docTexts = []string{
 	"query Q { a } mutation M { m n }",
 	"subscription S { s }",
 	"query V($x: Int!) { c(x: $x) }",
-	"{ a ",                       // does not parse
-	"",                           // no operation
-	"{ zzz }",                    // unknown field
-	"{ c(x: \"str\") }",          // wrong argument type
-	"{ ...F }",                   // missing fragment
-	"{ a } { b }",                // two anonymous operations
-	"fragment F on Query { a }",  // no operation, only a fragment
+	"{ a ",                        // does not parse
+	"",                            // no operation
+	"{ zzz }",                     // unknown field
+	"{ c(x: \"str\") }",           // wrong argument type
+	"{ ...F }",                    // missing fragment
+	"{ a } { b }",                 // two anonymous operations
+	"fragment F on Query { a }",   // no operation, only a fragment
 	"query Q { a } query Q { b }", // duplicate operation name
 	"mutation M { zzz }",
+	// one document per validation rule of gqlparser, invalid under (essentially) that rule only
+	"{ a { x } }",           // ScalarLeafs: selection on a scalar
+	"{ o }",                 // ScalarLeafs: object without selection
+	"{ ... on Int { a } }",  // FragmentsOnCompositeTypes
+	"{ a(zz: 1) }",          // KnownArgumentNames
+	"{ a @nope }",           // KnownDirectives
+	"{ ... on Nope { a } }", // KnownTypeNames
+	"{ __schema { types { fields { type { fields { type { fields { type { fields { name } } } } } } } } } }", // MaxIntrospectionDepth
+	"{ ...A } fragment A on Query { ...B } fragment B on Query { ...A }",                                     // NoFragmentCycles
+	"{ c(x: $u) }",                           // NoUndefinedVariables
+	"{ a } fragment U on Query { b }",        // NoUnusedFragments
+	"query W($u: Int) { a }",                 // NoUnusedVariables
+	"{ k: a k: b }",                          // OverlappingFieldsCanBeMerged
+	"{ ... on Mutation { m } }",              // PossibleFragmentSpreads
+	"{ c }",                                  // ProvidedRequiredArguments
+	"subscription T { s t: s }",              // SingleFieldSubscriptions
+	"{ c(x: 1, x: 2) }",                      // UniqueArgumentNames
+	"{ a @skip(if: true) @skip(if: false) }", // UniqueDirectivesPerLocation
+	"{ ...F } fragment F on Query { a } fragment F on Query { b }", // UniqueFragmentNames
+	"{ i(in: {k: 1, k: 2}) }",                                      // UniqueInputFieldNames
+	"query W($v: Int!, $v: Int!) { c(x: $v) }",                     // UniqueVariableNames
+	"{ c(x: 1.5) }",                  // ValuesOfCorrectType
+	"query W($v: Obj) { i(in: $v) }", // VariablesAreInputTypes
+	"query W($v: Int) { c(x: $v) }",  // VariablesInAllowedPosition
+	"{ o { f } i(in: {k: 1}) }",      // valid, uses the object and the input type
 }
 
 type docInfo struct {
@@ -413,7 +440,14 @@ func (q rawReq) varsOK(docs []docInfo) bool {
 	return err == nil
 }
 
+// crossGet: a body-transport request (JSON, application/graphql, urlencoded, multipart) sent with the GET method: only
+// the GET transport may take it, and that one reads the URL query, which is empty
+func (q rawReq) crossGet() bool { return q.Method == "GET" && q.Transport != "get" }
+
 func (q rawReq) carriesEnvelope() bool {
+	if q.crossGet() {
+		return false
+	}
 	switch q.Transport {
 	case "graphql", "form", "formenc":
 		return false
@@ -439,8 +473,8 @@ func (q rawReq) coq(docs []docInfo, emptyDoc int) string {
 	bodyOK := q.Body == "ok" || q.Body == "null" || q.Body == "badquerystring"
 	qsOK := q.Body != "badquerystring"
 	doc := q.Doc
-	if q.Body == "null" {
-		doc = emptyDoc // a null body decodes to an empty request
+	if q.Body == "null" || q.crossGet() {
+		doc = emptyDoc // a null body decodes to an empty request; so does the empty URL query of a GET that carries a body
 	}
 	if q.Body == "nonobject" && q.Transport == "multipart" {
 		bodyOK = false // parts in the wrong order
@@ -453,6 +487,9 @@ func (q rawReq) coq(docs []docInfo, emptyDoc int) string {
 	}
 	vq := q
 	vq.Doc = doc
+	if q.crossGet() {
+		vq.Vars = nil
+	}
 	return fmt.Sprintf("{| w_method := %s; w_media := %s; w_upgrade := %s; w_accept := %s; w_body_ok := %s; w_query_string_ok := %s; w_req := {| r_q := %d%%nat; r_opname := %s; r_vars_ok := %s; r_reject_param := %s; r_reject_ctx := %s |} |}",
 		method, classifyMedia(ct), b(q.Upgrade), classifyAccept(q.Accept), b(bodyOK), b(qsOK), doc, gen.Str(q.effectiveOpName()), b(vq.varsOK(docs)), opt(q.RejectParam), opt(q.RejectCtx))
 }
@@ -625,6 +662,10 @@ func randReq(r *gen.Rand, docs []docInfo, nExts int, malformedRate int) rawReq {
 			q.Body = "bad"
 		}
 	}
+	if q.Method == "POST" && q.Transport != "other" && !q.Upgrade && r.Chance(1, 10) {
+		// the same body and Content-Type, sent as a GET
+		q.Method, q.Body = "GET", "ok"
+	}
 	if nExts > 0 && r.Chance(1, 8) {
 		q.RejectParam = r.Intn(nExts)
 	}
@@ -655,6 +696,48 @@ func RunAs(prop string) func(*gen.Ctx) error {
 	}
 }
 
+// plannedHistory is a pinned history: every body transport's request shape sent with the GET method (and the plain
+// GET after it), under every registration order of the transports - only transport.GET may take a GET, whatever
+// is registered before it.
+type plannedHistory struct {
+	transports []string
+	reqs       []rawReq
+}
+
+func crossingPlans(docs []docInfo) []plannedHistory {
+	mut, qry := -1, -1
+	for i, d := range docs {
+		if !d.Valid || strings.Contains(d.Text, "\"") || d.NeedsX || len(d.Ops) != 1 {
+			continue
+		}
+		if d.Ops[0].Kind == "mutation" && mut < 0 {
+			mut = i
+		}
+		if d.Ops[0].Kind == "query" && qry < 0 && strings.HasPrefix(d.Text, "{") {
+			qry = i
+		}
+	}
+	if mut < 0 || qry < 0 {
+		return nil
+	}
+	orders := append([][]string{}, transportOrders...)
+	orders = append(orders, []string{"form", "get", "post"}, []string{"graphql", "get"}, []string{"multipart", "post", "get"}, []string{"post", "form", "graphql", "multipart", "get"})
+	cts := map[string]string{"post": "application/json", "graphql": "application/graphql", "form": "application/x-www-form-urlencoded",
+		"formjson": "application/x-www-form-urlencoded", "multipart": "multipart/form-data"}
+	var out []plannedHistory
+	for _, o := range orders {
+		for _, via := range []string{"post", "graphql", "form", "formjson", "multipart"} {
+			mk := func(doc int, method string) rawReq {
+				return rawReq{Method: method, Transport: via, ContentType: cts[via], Doc: doc, Body: "ok", RejectParam: -1, RejectCtx: -1}
+			}
+			out = append(out, plannedHistory{o, []rawReq{mk(mut, "GET"), mk(qry, "GET"), mk(mut, "POST"),
+				{Method: "GET", Transport: "get", Doc: mut, Body: "ok", RejectParam: -1, RejectCtx: -1},
+				{Method: "GET", Transport: "get", Doc: qry, Body: "ok", RejectParam: -1, RejectCtx: -1}}})
+		}
+	}
+	return out
+}
+
 // Generate runs the histories and adds the case file to meta; returns the number of requests.
 func Generate(c *gen.Ctx, prop string, r *gen.Rand, meta *gen.Meta) (int, error) {
 	var docs []docInfo
@@ -681,10 +764,17 @@ func Generate(c *gen.Ctx, prop string, r *gen.Rand, meta *gen.Meta) (int, error)
 	statuses := map[int]int{}
 	distinct := map[string]bool{}
 	nreq := 0
+	plans := crossingPlans(docs)
+	n += len(plans)
 	for i := 0; i < n; i++ {
 		cfg := serverCfg{Transports: gen.Pick(r, transportOrders), Hdr: gen.Pick(r, []string{"none", "none", "ct", "noct"})}
 		if r.Chance(2, 3) {
 			cfg.Transports = defaultTransports
+		}
+		var plan *plannedHistory
+		if i < len(plans) {
+			plan = &plans[i]
+			cfg.Transports = plan.transports
 		}
 		for k := r.Intn(5); k > 0; k-- {
 			cfg.Exts = append(cfg.Exts, gen.Pick(r, extKinds))
@@ -700,6 +790,9 @@ func Generate(c *gen.Ctx, prop string, r *gen.Rand, meta *gen.Meta) (int, error)
 		cfg.NoSuggest = r.Chance(1, 4)
 		srv := newServer(cfg)
 		hlen := 1 + r.Intn(8)
+		if plan != nil {
+			hlen = len(plan.reqs)
+		}
 		malformed := 10
 		if i%3 == 0 {
 			malformed = 45 // a separate, mostly-malformed stream
@@ -710,7 +803,9 @@ func Generate(c *gen.Ctx, prop string, r *gen.Rand, meta *gen.Meta) (int, error)
 		sig := ""
 		for j := 0; j < hlen; j++ {
 			q := randReq(r, docs, len(cfg.Exts), malformed)
-			if j > 0 && r.Chance(1, 3) {
+			if plan != nil {
+				q = plan.reqs[j]
+			} else if j > 0 && r.Chance(1, 3) {
 				// same query text again with a different operationName / variables / transport (cache and pool reuse)
 				prev := reqs[r.Intn(len(reqs))]
 				q.Doc = prev.Doc
